@@ -59,6 +59,9 @@ def main():
     ap.add_argument("--out", default=os.path.join(ROOT, "seeded", "selftest-report.json"))
     ap.add_argument("--keep", action="store_true")
     ap.add_argument("--demos", action="store_true")
+    ap.add_argument("--tier", default="quick")
+    ap.add_argument("--baseline-only", action="store_true", help="only run the checks on the unchanged scratch tree")
+    ap.add_argument("--baseline-checks", default="", help="comma list of checks for the baseline run (default all)")
     ap.add_argument("--scratch", default="/tmp/verif-selftest-%d" % os.getpid())
     a = ap.parse_args()
     st = a.scratch
@@ -90,13 +93,23 @@ def main():
         items.append((name, d))
     report = {"repo_head": sh("git -C /repo rev-parse --short HEAD")[1].strip(), "verif_head": sh(f"git -C {ROOT} rev-parse --short HEAD")[1].strip(), "results": []}
     # unchanged tree first
-    if not a.only:
+    if not a.only or a.baseline_only:
         base = {}
-        for c in ALL:
-            rc, out = sh(f"./check {c} quick", cwd=st, env=env, timeout=3600)
+        times = {}
+        for c in (a.baseline_checks.split(",") if a.baseline_checks else ALL):
+            t0 = time.time()
+            rc, out = sh(f"./check {c} {a.tier}", cwd=st, env=env, timeout=6000)
             base[c] = rc
+            times[c] = round(time.time() - t0, 1)
+            print(c, a.tier, "exit", rc, times[c], "s", [l for l in out.splitlines() if l.startswith(c + " ")][-1:], flush=True)
+            if rc != 0:
+                print(out[-1500:], flush=True)
+        report["unchanged_tree_seconds"] = times
+        report["tier"] = a.tier
         report["unchanged_tree_exit_codes"] = base
         print("unchanged tree:", base, flush=True)
+    if a.baseline_only:
+        items = []
     for name, patch in items:
         meta = {}
         mp = os.path.join(os.path.dirname(patch), "meta.json")
